@@ -33,6 +33,23 @@ CLAIMED = {
  'C16': ('Kernel-checked theorems: size = length of the full serialisation, vsize = ceil((3*stripped + full)/4) for any witness structure, '
          'legacy vsize = size; model in integer arithmetic, tied to get_size/get_vsize by the correspondence run (stacks of 0..300 items).',
          NOTE_COMMON + 'binary64 quarter arithmetic exact below 2^51 (assumed, exercised).', 'Lean 4 proof (hand model) + differential correspondence', '6/C16'),
+ 'C03': ('Kernel-checked theorem for every one-byte hash type, input index and transaction shape: the hand model of get_transaction_digest '
+         '(with its temporaries: copy, blanked scriptSigs, NONE/SINGLE/ANYONECANPAY surgery) equals double-SHA256 of the Bitcoin Core '
+         'SignatureHash preimage Spec; SINGLE without matching output is refused; the digest ignores existing scriptSigs. Model tied to the code '
+         'by the correspondence run.', NOTE_COMMON + 'SHA-256 is a parameter.', 'Lean 4 proof (hand model) + differential correspondence', '6/C03'),
+ 'C04': ('Kernel-checked theorem for every hash type without the undefined 0x70 bits, any index, any script/amount: the hand model of '
+         'get_transaction_segwit_digest equals double-SHA256 of the BIP143 preimage Spec (CompactSize prefixes everywhere, zero hashOutputs for '
+         'SINGLE out of range); independent of scriptSigs/witnesses. Model tied to the code by the correspondence run.',
+         NOTE_COMMON + 'SHA-256 is a parameter.', 'Lean 4 proof (hand model) + differential correspondence', '6/C04'),
+ 'C05': ('Kernel-checked theorem for the seven valid hash types, key path and script path, any index/shape/script length: the hand model of '
+         'get_transaction_taproot_digest equals the BIP341 SigMsg / BIP342 extension Spec under the TapSighash tagged hash; independent of '
+         'scriptSigs/witnesses. Model tied to the code by the correspondence run.',
+         NOTE_COMMON + 'SHA-256 is a parameter.', 'Lean 4 proof (hand model) + differential correspondence', '6/C05'),
+ 'C15': ('Kernel-checked theorems: 80-byte header parse/serialise round trip with little-endian fields and reversed hashes, block hash = reversed '
+         'double-SHA256, compact target expansion, the independent length scanner agrees with the serialiser on every well-formed transaction, and '
+         'parsing a framed block yields exactly the parses of the slices (any number of transactions). Model tied to the code by the correspondence '
+         'run incl. the three mainnet blocks in full (merkle root, witness commitment, per-transaction re-serialisation).',
+         NOTE_COMMON + 'SHA-256 is a parameter.', 'Lean 4 proof (hand model) + differential correspondence', '6/C15'),
 }
 REASONS_PENDING = 'check under construction in this session (DESIGN.md section 9 build order); will be claimed once its Lean theorems are proved and its correspondence run exists'
 
